@@ -118,7 +118,7 @@ Section BinReader.
 
   Definition read_data (b : bbias) (s : mstream) : mstream * bool :=
     match bb_kind b with
-    | S O => read_hills (length (ms_buf s)) (bb_nvar b) s
+    | S O => read_hills (S (length (ms_buf s))) (bb_nvar b) s
     | _ => (s, false)
     end.
 
